@@ -130,7 +130,7 @@ func ReadLine(reader *bufio.Reader) ([]byte, error) {
 		line = line[:len(line)-1]
 	}
 
-	if line[len(line)-1] == '\r' {
+	if len(line) > 0 && line[len(line)-1] == '\r' {
 		line = line[:len(line)-1]
 	}
 
